@@ -17,7 +17,7 @@ class C07(ModelCheck):
             'lists, and the close event of each. non-trivial: >= 3 events and >= 2 windows; distinct = distinct (program, schedule)')
     assumptions = ['timestamps are non-decreasing per key (they are read from the virtual clock)',
                    'empty windows (opened eagerly after a closing item) are implementation detail and ignored on both sides']
-    probe_names = ('include_flag_not_bool', 'numpy_timestamps', 'datetime_gap>=1day', 'gap==inactive', 'gap==active', 'equal_timestamps', 'consecutive_closing', 'closing_last',
+    probe_names = ('zero_timeout', 'include_flag_not_bool', 'numpy_timestamps', 'datetime_gap>=1day', 'gap==inactive', 'gap==active', 'equal_timestamps', 'consecutive_closing', 'closing_last',
                    'expiring_and_closing', 'datetime', 'under_group_by', 'both_none')
 
     def gen_program(self, rng, tier):
@@ -25,11 +25,11 @@ class C07(ModelCheck):
                 small=(tier == 'quick'))
         closing = rng.random() < 0.55
         node = {'op': 'time_split',
-                'active': rng.choice([None, None, 3, 5, 8]),
-                'inactive': rng.choice([None, None, 1, 2, 3]),
+                'active': rng.choice([None, None, 3, 5, 8, 0]),
+                'inactive': rng.choice([None, None, 1, 2, 3, 0]),
                 'closing': closing, 'include': rng.choice([True, True, False, False, 'one', 'zero', 'np_true']) if closing else rng.random() < 0.5,
                 'dt': rng.choice([False, False, False, 'seconds', 'hours', 'hours', 'days', 'days', 'np_int', 'np_float', 'np_dt64'])}
-        inner = g.pipeline(St('rec', closing), Flags(deny=('time_split', 'progress')), rng.choice([0, 0, 1]), rng.choice([1, 1, 2]))
+        inner = g.pipeline(St('rec', closing or node['active'] == 0 or node['inactive'] == 0), Flags(deny=('time_split', 'progress')), rng.choice([0, 0, 1]), rng.choice([1, 1, 2]))
         node['inner'] = inner
         if rng.random() < 0.55:
             return [{'op': 'group_by', 'key': rng.choice(['rk', 'rk_big', 'rk_tup']), 'inner': [node]}]
@@ -53,6 +53,8 @@ class C07(ModelCheck):
             p['datetime_gap>=1day'] += 1
         if A is None and I is None:
             p['both_none'] += 1
+        if A == 0 or I == 0:
+            p['zero_timeout'] += 1
         seqs = {}
         for e in case['events']:
             seqs.setdefault(e['p'] if grouped else 0, []).append(e)
